@@ -206,10 +206,100 @@ fn fixtures(rep: &Report) {
     }
 }
 
+/// Two objects (and the caller) on ONE stream: object `a` is opened fully and object `b` through a range filter on
+/// clones of the same stream handle, so every lookup of one moves the position the other will find. For ALL ordered
+/// triples (t1, x, t2) of ids: a.get(t1); between the calls either b.get(x) or the caller seeking to where x is
+/// stored (or to 0 / the end); a.get(t2). Every lookup must return the addressed bytes.
+pub fn shared_stream_sessions(f: &Foreign, api: Api) -> (u64, Vec<(String, String)>) {
+    use crate::env::{DefaultChooser, Handle};
+    let mut bad = Vec::new();
+    let h = Handle::new(f.bytes.clone(), Box::new(DefaultChooser));
+    let content = |id: u64| -> Option<Vec<u8>> { f.expected.get(&id).map(|(o, l)| f.bytes[*o as usize..*o as usize + *l as usize].to_vec()) };
+    let mut ids: Vec<u64> = f.expected.keys().copied().collect();
+    ids.truncate(8);
+    let lo = ids.get(1).copied().unwrap_or(0);
+    ids.push(f.expected.keys().last().map_or(77, |m| m + 1)); // an id that is not addressed
+    let n = ids.len();
+    let mut calls = 0u64;
+    let r = catch(|| -> Result<(), String> {
+        enum Pair {
+            S(PMTiles<crate::env::SyncStream>, PMTiles<crate::env::SyncStream>),
+            A(PMTiles<crate::env::AsyncStream>, PMTiles<crate::env::AsyncStream>),
+        }
+        // opening reads the header at the stream's current position: the caller rewinds before the second open
+        let rewind = || h.0.lock().unwrap().pos = 0;
+        let mut pair = match api {
+            Api::Sync => {
+                let a = PMTiles::from_reader(h.sync()).map_err(|e| format!("open a: {e}"))?;
+                rewind();
+                Pair::S(a, PMTiles::from_reader_partially(h.sync(), lo..).map_err(|e| format!("open b: {e}"))?)
+            }
+            Api::Async => {
+                let a = block_on(PMTiles::from_async_reader(h.asyn())).map_err(|e| format!("open a: {e}"))?;
+                rewind();
+                Pair::A(a, block_on(PMTiles::from_async_reader_partially(h.asyn(), lo..)).map_err(|e| format!("open b: {e}"))?)
+            }
+        };
+        let mut get = |which: u8, id: u64| -> Result<Option<Vec<u8>>, String> {
+            match (&mut pair, which) {
+                (Pair::S(a, _), 0) => a.get_tile_by_id(id).map_err(|e| e.to_string()),
+                (Pair::S(_, b), _) => b.get_tile_by_id(id).map_err(|e| e.to_string()),
+                (Pair::A(a, _), 0) => block_on(a.get_tile_by_id_async(id)).map_err(|e| e.to_string()),
+                (Pair::A(_, b), _) => block_on(b.get_tile_by_id_async(id)).map_err(|e| e.to_string()),
+            }
+        };
+        for i1 in 0..n {
+            for ix in 0..n + 2 {
+                for i2 in 0..n {
+                    for by_other_object in [true, false] {
+                        let (t1, t2) = (ids[i1], ids[i2]);
+                        let g1 = get(0, t1);
+                        calls += 1;
+                        if g1 != Ok(content(t1)) {
+                            bad.push((format!("shared-stream/first-lookup/{}", api.name()), format!("a.get({t1}) = {:?}, addressed bytes {:?}", g1, content(t1))));
+                        }
+                        let what;
+                        if by_other_object && ix < n {
+                            let x = ids[ix];
+                            let want = if x >= lo { content(x) } else { None };
+                            let gx = get(1, x);
+                            calls += 1;
+                            if gx != Ok(want.clone()) {
+                                bad.push((format!("shared-stream/other-object/{}", api.name()), format!("after a.get({t1}): b.get({x}) = {gx:?}, expected {want:?}")));
+                            }
+                            what = format!("b.get({x})");
+                        } else {
+                            // the caller moves the stream: to the start of x's bytes, to 0, to the end
+                            let p = if ix < n { f.expected.get(&ids[ix]).map_or(0, |(o, _)| *o) } else if ix == n { 0 } else { f.bytes.len() as u64 };
+                            h.0.lock().unwrap().pos = p;
+                            what = format!("the caller seeking to {p}");
+                        }
+                        let g2 = get(0, t2);
+                        calls += 1;
+                        if g2 != Ok(content(t2)) {
+                            bad.push((format!("shared-stream/lookup-after-foreign-move/{}", api.name()), format!("a.get({t1}), then {what}, then a.get({t2}) = {:?}, addressed bytes {:?}", g2.as_ref().map(|o| o.as_ref().map(|b| crate::report::brief(b))), content(t2).map(|b| crate::report::brief(&b)))));
+                        }
+                        if bad.len() > 5 {
+                            return Ok(());
+                        }
+                    }
+                }
+            }
+        }
+        Ok(())
+    });
+    match r {
+        Ok(Ok(())) => {}
+        Ok(Err(e)) => bad.push((format!("shared-stream/open-fails/{}", api.name()), e)),
+        Err(p) => bad.push((format!("shared-stream/panic/{}", api.name()), p)),
+    }
+    (calls, bad)
+}
+
 pub fn run(tier: &str) -> i32 {
     let rep = Report::new("C03", tier, "exploration");
     let thorough = rep.thorough();
-    rep.rule("product alphabet of foreign archives from the independent encoder: section order (6 permutations, root optionally behind a gap) x gap {0,1,13} x tree shape {root only, root->leaves, depth 3, mixed} x run length {1,2,3} x offsets {contiguous, back-references, descending, overlapping} x entries {0,1,2,3,7} x metadata {length 0, {}, object} x 4 compressions, opened through from_bytes/from_reader/from_async_reader, util::read_directories(_async) and Directory::find_entry_for_tile_id on every directory; plus the three upstream fixtures compared tile by tile with the spec reader; non-trivial = archives with >=1 entry");
+    rep.rule("product alphabet of foreign archives from the independent encoder: section order (6 permutations, root optionally behind a gap) x gap {0,1,13} x tree shape {root only, root->leaves, depth 3, mixed} x run length {1,2,3} x offsets {contiguous, back-references, descending, overlapping, duplicated, nested} x entries {0,1,2,3,7} x metadata {length 0, {}, object} x 4 compressions, opened through from_bytes/from_reader/from_async_reader, util::read_directories(_async) and Directory::find_entry_for_tile_id on every directory; plus sessions of two objects (one range-filtered) and the caller sharing ONE stream: all ordered triples a.get(t1) / b.get(x) or a foreign seek / a.get(t2) over the archive's ids; plus the three upstream fixtures compared tile by tile with the spec reader; non-trivial = archives with >=1 entry");
     rep.assume("directory trees deeper than 3 and more than a few thousand entries are outside the enumerated alphabet (fixtures reach 1.4M tiles)");
     // the full product is cheap enough for every tier; thorough adds longer directories
     let mut specs = product(true);
@@ -255,6 +345,28 @@ pub fn run(tier: &str) -> i32 {
         }
     }
     rep.count("mixed_shorthand_archives", 4);
+    // two objects and the caller on one shared stream
+    let shared: Vec<Spec> = product(false).into_iter().filter(|s| s.n == 7 && s.meta == 1).enumerate().filter(|(i, _)| thorough || i % 5 == 0).map(|(_, s)| s).collect();
+    let res: Vec<(usize, Api, u64, Vec<(String, String)>)> = shared
+        .par_iter()
+        .enumerate()
+        .flat_map_iter(|(i, s)| {
+            let f = build(s);
+            APIS.into_iter().map(|api| { let (c, b) = shared_stream_sessions(&f, api); (i, api, c, b) }).collect::<Vec<_>>()
+        })
+        .collect();
+    rep.eval(res.iter().map(|r| r.2).sum());
+    rep.nontrivial(res.len() as u64);
+    rep.count("shared_stream_archives", shared.len() as u64);
+    rep.count("shared_stream_lookups", res.iter().map(|r| r.2).sum());
+    for (i, api, _, b) in res {
+        for (k, d) in b.into_iter().take(3) {
+            let mut case = shared[i].to_json();
+            case["kind"] = json!("shared-stream");
+            case["api"] = json!(api.name());
+            rep.violation(format!("{k}/{:?}", shared[i].shape), d, case);
+        }
+    }
     fixtures(&rep);
     rep.force_sample(specs[specs.len() / 2].to_json());
     rep.force_sample(specs[specs.len() / 7].to_json());
@@ -281,5 +393,9 @@ pub fn replay(case: &Value) -> Vec<String> {
         return if rep.violations_so_far() == 0 { vec![] } else { vec!["fixture comparison still fails".into()] };
     }
     let s = Spec::from_json(case);
+    if case["kind"].as_str() == Some("shared-stream") {
+        let api = if case["api"].as_str() == Some("async") { Api::Async } else { Api::Sync };
+        return shared_stream_sessions(&build(&s), api).1.into_iter().map(|(k, d)| format!("{k}: {d}")).collect();
+    }
     check_foreign(&build(&s), &expected_meta(&s)).into_iter().map(|(k, d)| format!("{k}: {d}")).collect()
 }
